@@ -32,6 +32,9 @@ type c19Case struct {
 	File    string `json:"file"`
 }
 
+// c19Stdin: input path of the cases whose image is piped in.
+const c19Stdin = "/dev/stdin"
+
 func c19Content(kind, n int) []byte {
 	b := make([]byte, n)
 	switch kind {
@@ -94,10 +97,25 @@ func c19Run(dir string, bin string, cs *c19Case) []string {
 	in := filepath.Join(dir, cs.File)
 	outp := filepath.Join(dir, "out.bin")
 	os.Remove(outp)
-	if err := os.WriteFile(in, body, 0o644); err != nil {
-		return []string{"framework: " + err.Error()}
+	piped := cs.File == c19Stdin
+	if cs.File == "link.cim" {
+		// the image is reached through a symbolic link
+		target := filepath.Join(dir, "target.dat")
+		if err := os.WriteFile(target, body, 0o644); err != nil {
+			return []string{"framework: " + err.Error()}
+		}
+		defer os.Remove(target)
+		os.Remove(in)
+		if err := os.Symlink("target.dat", in); err != nil {
+			return []string{"framework: " + err.Error()}
+		}
+		defer os.Remove(in)
+	} else if !piped {
+		if err := os.WriteFile(in, body, 0o644); err != nil {
+			return []string{"framework: " + err.Error()}
+		}
+		defer os.Remove(in)
 	}
-	defer os.Remove(in)
 	var args []string
 	args = append(args, "-cim", cs.File)
 	if cs.Tool == "cim2bin" {
@@ -116,6 +134,10 @@ func c19Run(dir string, bin string, cs *c19Case) []string {
 	defer cancel()
 	cmd := exec.CommandContext(ctx, bin, args...)
 	cmd.Dir = dir
+	if piped {
+		// the image arrives through a pipe: its size is only known once it has been read
+		cmd.Stdin = bytes.NewReader(body)
+	}
 	var errb bytes.Buffer
 	cmd.Stderr = &errb
 	if err := cmd.Run(); err != nil {
@@ -201,6 +223,27 @@ func checkC19(c *Ctx) {
 			}
 		}
 	}
+	// the image is not a regular file: piped in through /dev/stdin, or reached through a symbolic link
+	if _, err := os.Stat(c19Stdin); err == nil {
+		for _, tool := range []string{"cim2bin", "cim2cas"} {
+			for _, off := range []int{0, -1, 0xFF00} {
+				for _, l := range []int{1, 2, 255, 256, 4096, 70000} {
+					o := off
+					if o < 0 {
+						o = 0xA000
+					}
+					if o+l > 65536 {
+						continue
+					}
+					for _, file := range []string{c19Stdin, "link.cim"} {
+						cases = append(cases, c19Case{Tool: tool, Len: l, Off: off, Content: 1, NoName: tool == "cim2cas" && l%2 == 1, Name: "PIPE", File: file})
+					}
+				}
+			}
+		}
+	} else {
+		c.Set("piped_input", "skipped: no /dev/stdin here")
+	}
 	var evals [16 * 8]int64
 	var failed int32
 	parallel(int64(len(cases)), 8, 16, func(wi int, lo, hi int64) {
@@ -227,7 +270,7 @@ func checkC19(c *Ctx) {
 	c.Transitions = c.Evaluations
 	c.Traces = c.Evaluations
 	c.Exhaustive = true
-	c.Rule = fmt.Sprintf("%d runs of the command binaries built from the current tree: tools {cim2bin, cim2cas} x offsets {0,1,0x4000, flag omitted (=0xA000), 0xA000, 0xFFFE, 0xFFFF} x image lengths {1,2,255,256,4096,65535-off,65536-off (end address = 0xFFFF)} (thorough: 9 more) x contents {zeros, ramp, FF, header look-alike} x for cim2cas names {omitted (default = file name, also shorter and longer than six), \"\", 1,2,5,6,7,12 characters, with a space, with a dot}; output compared byte for byte with a header model (0xFE/start/end/exec; sync, 10 x D0, name[6], sync, start/end/exec) + unmodified body. All cases are distinct and non-trivial (each produces a container).", len(cases))
+	c.Rule = fmt.Sprintf("%d runs of the command binaries built from the current tree: tools {cim2bin, cim2cas} x offsets {0,1,0x4000, flag omitted (=0xA000), 0xA000, 0xFFFE, 0xFFFF} x image lengths {1,2,255,256,4096,65535-off,65536-off (end address = 0xFFFF)} (thorough: 9 more) x contents {zeros, ramp, FF, header look-alike} x for cim2cas names {omitted (default = file name, also shorter and longer than six), \"\", 1,2,5,6,7,12 characters, with a space, with a dot}; the image also piped in through /dev/stdin and reached through a symbolic link; output compared byte for byte with a header model (0xFE/start/end/exec; sync, 10 x D0, name[6], sync, start/end/exec) + unmodified body. All cases are distinct and non-trivial (each produces a container).", len(cases))
 	c.Bound = "lattice " + c.Tier
 	c.Sample(cases[0])
 	c.Sample(cases[len(cases)-1])
